@@ -779,6 +779,10 @@ def gen_history_case(rng):
         elif r < 0.6:
             s.tick(rng.choice([0, 1, 2]))
         elif r < 0.9:
+            if rng.random() < 0.3:
+                # every write and transfer of this pass moves at most n bytes: the slice goes out in pieces, and so does
+                # the new position when it has more digits than that
+                s.oracle("shortall", rng.choice([1, 1, 2, 3]))
             s.timeout()
             s.dump()
         else:
